@@ -311,7 +311,9 @@ func releaseOpener(fifo string, w *os.File) {
 
 func c13Read(seed int64, i int, sc c13Scenario, out *childOut) {
 	rec := vlib.NewRec()
-	audits := make(chan string)
+	// the line buffer between ingester and processor: unbuffered, small, and
+	// the daemon's ten thousand slots (a busy stream keeps it filled)
+	audits := make(chan string, []int{0, 16, 10000}[(i/len(c13Scenarios()))%3])
 	logins := make(chan common.RemoteUserLogin)
 	a := auditd.Auditd{Audits: audits, Logins: logins, EventW: rec.Writer(), Health: health.NewHealth()}
 	ctx, cancel := context.WithCancel(context.Background())
@@ -358,8 +360,10 @@ func c13Read(seed int64, i int, sc c13Scenario, out *childOut) {
 				case <-stopFeed:
 					return
 				case <-time.After(20 * time.Millisecond):
+					// the producer is not the one being cancelled: it goes on offering
+					// lines and gives up only when nobody has taken one for 20 ms
 					if atomic.LoadInt32(&cancelled) == 1 || time.Since(feedStart) > 2*c13Watch {
-						return // after cancel: nobody takes lines any more
+						return
 					}
 					goto offer
 				}
@@ -389,12 +393,22 @@ func c13Read(seed int64, i int, sc c13Scenario, out *childOut) {
 	}
 	t0 := time.Now()
 	atomic.StoreInt32(&cancelled, 1)
+	atCancel := rec.Len()
 	cancel()
 	select {
 	case <-done: // any return value is acceptable after cancellation
 	case <-time.After(c13After):
 		stuck, why := classifyStacks(vlib.AllStacks(), "auditd.(*Auditd).Read")
 		stuckTotal++
+		// Not parked but still at work: decided by logical progress, not by the
+		// clock. A worker that looks at its context between two records takes a
+		// few more at most (each look has an even chance of seeing the
+		// cancellation first); hundreds of records later it is not looking.
+		if more := rec.Len() - atCancel; !stuck && more > 300 {
+			close(stopFeed)
+			out.violation(sig+":keeps-consuming-after-cancel", fmt.Sprintf("Read has not returned %s after cancel() and has written %d more events since: it goes on consuming its input (%s)", c13After, more, why), wit)
+			return
+		}
 		if stuck {
 			out.violation(sig+":stuck-after-cancel", "Read still parked after cancel: "+why, wit)
 		} else {
